@@ -46,7 +46,20 @@ func init() {
 		New: func() interface{} { return &dbgPlan{} }, Run: func(p interface{}) { dbgRun(p.(*dbgPlan), "C16") }, Shrink: dbgShrink, Budget: 12_000_000})
 }
 
-var dbgBlockKinds = []string{"straight", "func", "nested", "loop", "tryerr", "sinks", "deep", "zoo", "chain", "errdata", "lib"}
+var dbgBlockKinds = []string{"straight", "func", "nested", "loop", "tryerr", "sinks", "deep", "zoo", "chain", "errdata", "lib", "multiline"}
+
+// dbgItemLines: lines of the program that hold nothing but one item of a multi-line
+// list literal (a constant or a call); the thread that evaluates the literal arrives at
+// each of them.
+func dbgItemLines(src string) []int {
+	var out []int
+	for i, l := range strings.Split(src, "\n") {
+		if strings.HasPrefix(l, "    ") && strings.HasSuffix(l, ", # item") {
+			out = append(out, i+1)
+		}
+	}
+	return out
+}
 
 // a second source, loaded before the debugger is attached; its name starts with the
 // name of the main source. Breakpoint lines >= dbgLibBase address this source.
@@ -217,6 +230,9 @@ func dbgProgram(p *dbgPlan) (string, bool) {
 			fmt.Fprintf(&b, "v%d := %d + %d\nlog(\"v%d=\", v%d)\n", i, c, i, i, i)
 		case "func":
 			fmt.Fprintf(&b, "func f%d(a) {\n    let b := a + %d\n    log(\"f%d \", b)\n    return b\n}\nr%d := f%d(%d)\n", i, c, i, i, i, c+1)
+		case "multiline":
+			// an expression broken over several lines: some lines hold only a constant
+			fmt.Fprintf(&b, "ml%d := [\n    %d, # item\n    true, # item\n    null, # item\n    false, # item\n    \"s\", # item\n    inc(%d), # item\n    0\n]\n", i, c, c)
 		case "lib":
 			fmt.Fprintf(&b, "lb%d := libf(%d) + libf(inc(%d))\nlog(\"lb%d=\", lb%d)\n", i, c, i, i, i)
 		case "nested":
@@ -232,8 +248,11 @@ func dbgProgram(p *dbgPlan) (string, bool) {
 			// assorted values a debugger has to describe: non-finite numbers, nesting, non-string keys
 			fmt.Fprintf(&b, "zinf%d := %d / 0\nzl%d := [1, [2, %d], {\"a\": 1}]\nzm%d := {1: 2, \"k\": [%d], true: null}\nzs%d := inc(len(zl%d))\n", i, c, i, c, i, c, i, i)
 		case "chain":
-			// a call on a function result whose argument list continues on the next line
-			fmt.Fprintf(&b, "obj%d := {\"mk\": func () {\n    return {\"add\": func (a) {\n        return a + %d\n    }}\n}}\nres%d := obj%d.mk().add(\n    inc(%d) + 1)\nlog(\"res%d=\", res%d)\n", i, c, i, i, c, i, i)
+			// a call on a function result whose argument list continues on the next line (the
+			// arguments are constants: on the pinned tree the arguments of such a call are
+			// resolved in the scope the callee was defined in, so `inc(4)` is unknown there -
+			// an observation outside C15/C16, DESIGN.md 9)
+			fmt.Fprintf(&b, "obj%d := {\"mk\": func () {\n    return {\"add\": func (a) {\n        return a + %d\n    }}\n}}\nres%d := obj%d.mk().add(\n    %d + 1)\nlog(\"res%d=\", res%d)\n", i, c, i, i, c, i, i)
 		case "errdata":
 			if c%2 == 0 {
 				fmt.Fprintf(&b, "func ed%d(a) {\n    let loc := [a, {2: a}]\n    raise(\"ErrD%d\", \"d\", {1: %d, \"l\": [a]})\n}\n", i, i, c)
@@ -544,6 +563,19 @@ func dbgExec(p *dbgPlan, src string, withDebugger bool, prop string) dbgOutcome 
 	out.logs = logger.Slice()
 	out.scope = vs.String()
 
+	if prop == "C15" && !stopped && strings.HasSuffix(out.result, "| <nil>") {
+		// every line that holds an item of a multi-line literal was arrived at by the thread
+		// that evaluated the literal (a line the debugger never hears about cannot suspend)
+		seen := map[int]bool{}
+		for _, v := range st.visits[mainTid] {
+			seen[v.line] = true
+		}
+		for _, l := range dbgItemLines(src) {
+			if !seen[l] {
+				simrt.Fail("oracle:suspension", "suspension/line-not-visited", "the main thread evaluated the list literal around line %d but never reported arriving at that line to the debugger (a breakpoint there cannot be honoured); lines reported: %v; result %s\n%s", l, keysInt(seen), out.result, src)
+			}
+		}
+	}
 	if prop == "C15" && p.ResumeOnly {
 		// (c) suspensions are exactly the arrivals, from a different line, at lines
 		// with an active breakpoint
